@@ -1,6 +1,7 @@
 #![allow(dead_code)]
 mod base;
 mod c01;
+mod c12;
 mod c16;
 mod c13;
 mod c11;
@@ -22,6 +23,7 @@ fn main() {
     let rest = &args[2..].to_vec();
     match args[1].as_str() {
         "c01" => c01::run(rest),
+        "c12" => c12::run(rest),
         "c16" => c16::run(rest),
         "c13" => c13::run(rest),
         "c11" => c11::run(rest),
